@@ -5,6 +5,7 @@ package main
 import (
 	"context"
 	"fmt"
+	math "github.com/IBM/mathlib"
 	mrand "math/rand"
 	"sort"
 	"sync"
@@ -125,7 +126,7 @@ func psDKG(ids []uint16, t, L int, rng *mrand.Rand, orch string, polIdx int) (ma
 }
 
 func unitC08(e common.Env, p *common.Part) {
-	p.Rule = "PS key generation (directly wired with PRNG delivery order, per-link FIFO or - every sixth configuration - any queued message next; every third configuration through real Loud/Silent schemes) for 2<=t<=n<=5 (thorough 6), party identifier sets 1..n, {1,2,4,..}, {10,20,..} and PRNG 16-bit, message length L=1..4, vectors {all entries empty, all equal, random, one 64 KiB entry}; for EVERY signer subset of size >= t, in PRNG order: TPS.Sign of the blinded request from the stored share, Prover.UnBlind, ProveKnowledgeOfSignature, Verifier.Verify must all succeed, and all parties report identical public material; distinct key = (n, t, L, id set, vector, subset); non-trivial when the proof was built and verified"
+	p.Rule = "PS key generation (directly wired with PRNG delivery order, per-link FIFO or - every sixth configuration - any queued message next; every third configuration through real Loud/Silent schemes) for 2<=t<=n<=5 (thorough 6), party identifier sets 1..n, {1,2,4,..}, {10,20,..} and PRNG 16-bit, message length L=1..4, vectors {all entries empty, all equal, random, one 64 KiB entry}; for EVERY signer subset of size >= t, in PRNG order: TPS.Sign of the blinded request from the stored share, Prover.UnBlind, ProveKnowledgeOfSignature, Verifier.Verify must all succeed, and all parties report identical public material; plus one in-memory request value (ps.Blind) handed to three signers (ps.SignBlindSignature) twice over: all accept, the request's serialisation is unchanged; distinct key = (n, t, L, id set, vector, subset); non-trivial when the proof was built and verified"
 	type cfg struct {
 		n, t, L int
 		ids     []uint16
@@ -197,5 +198,35 @@ func unitC08(e common.Env, p *common.Part) {
 			p.Sample(map[string]interface{}{"n": c.n, "t": c.t, "L": c.L, "ids": c.ids, "wiring": c.orch, "proofs_verified": proofs})
 		}
 	}
-	_ = ps.Setup
+	// the exported in-memory API: ONE request value handed to several signers one after the other (every signer must accept it,
+	// and again when the round is repeated), and its serialisation taken after the signatures must still be accepted by TPS.Sign
+	if e.Mine(0) {
+		for L := 1; L <= 4; L++ {
+			key := fmt.Sprintf("in-memory request, L=%d, three signers", L)
+			p.Begin(key)
+			pp := ps.Setup(curve, L)
+			m := make([]*math.Zr, L)
+			for i := range m {
+				m[i] = curve.HashToZr([]byte{byte(i), byte(L)})
+			}
+			req, _ := ps.Blind(&pp, curve, m)
+			before := req.Bytes()
+			ok := true
+			for round := 0; round < 2 && ok; round++ {
+				for sg := 0; sg < 3; sg++ {
+					sk, _ := ps.LocalKeyGen(pp)
+					if _, err := ps.SignBlindSignature(&pp, req, sk); err != nil {
+						p.Violate("ps-completeness/in-memory-request", fmt.Sprintf("%s: signer #%d (round %d) refuses a request that Blind produced and that other signers signed before: %v", key, sg, round, err), nil)
+						ok = false
+						break
+					}
+					p.Count("in_memory_signatures", 1)
+				}
+			}
+			if ok && !sameBytes(before, req.Bytes()) {
+				p.Violate("ps-completeness/in-memory-request", key+": signing changed the request (its serialisation differs afterwards), so signers that receive it later see another request", nil)
+			}
+			p.Case(key, ok)
+		}
+	}
 }
